@@ -51,7 +51,7 @@ _CPU_BUDGET_S = 200.0
 SEMANTIC = ['pins_dont_fit', 'wire_too_thick', 'clad_too_thick',
             'nonpositive_dimension', 'duct_ge_pitch', 'unequal_outer_ducts',
             'axial_region_inverted', 'axial_region_overlap',
-            'axial_region_outside_core', 'missing_bc',
+            'axial_region_outside_core', 'missing_bc', 'undefined_assembly',
             'unknown_material', 'unknown_correlation', 'power_negative',
             'power_malformed']
 FILE_FAULTS = ['truncate', 'torn_last_row', 'flip_byte', 'drop_column',
@@ -144,6 +144,23 @@ def apply_semantic(spec, kind, g):
             bot['z_lo'] = -world._r(L * rng.loguniform(g, 1e-3, 0.3), 6)
             return f'{t["name"]}/{bot["name"]}: z_lo {bot["z_lo"]} below 0'
         return None
+    if kind == 'undefined_assembly':
+        # a position assigned to an assembly type that is not defined: an
+        # unrelated name, or one that is a fragment / an extension of a
+        # defined name
+        ps = [p for p in spec['positions'] if p]
+        p = ps[int(g.integers(0, len(ps)))]
+        old = p['type']
+        how = rng.choice(g, ['unrelated', 'prefix', 'suffix', 'extended',
+                             'case'])
+        new = {'unrelated': 'zz9', 'prefix': old[:-1] or 'q',
+               'suffix': old[1:] or 'q', 'extended': old + '0',
+               'case': old.upper()}[how]
+        if new in [t['name'] for t in spec['types']] or new == old:
+            return None
+        p['type'] = new
+        return (f'position ({p["ring"]},{p["pos"]}) assigned to undefined '
+                f'assembly "{new}" ({how} of "{old}")')
     if kind == 'missing_bc':
         ps = [p for p in spec['positions'] if p]
         p = ps[int(g.integers(0, len(ps)))]
